@@ -30,9 +30,10 @@ Record mask := mkMask {
   m_rem : bool;      (* remaining *)
   m_val : bool;      (* option values *)
   m_called : bool;   (* Called / CalledAs *)
-  m_warn : bool      (* Writer *)
+  m_warn : bool;     (* Writer *)
+  m_perm : bool      (* the model gives the same result on the tree with every table reversed *)
 }.
-Definition mask_all := mkMask true true true true true true true.
+Definition mask_all := mkMask true true true true true true true true.
 
 (* maps are compared as sorted association lists (keys are unique) *)
 Fixpoint insert_kv (x : str * str) (l : list (str * str)) : list (str * str) :=
@@ -65,8 +66,43 @@ Definition state_eqb (m : mask) (a b : ostate) : bool :=
 Definition run_case (c : pcase) : presult :=
   parse (pf_of (c_ftab c)) (c_md c) (c_lower c) true (c_specs c) (c_root c) (c_st0 c) (c_args c).
 
+(* well-formedness of the dumped definition: the hypotheses of the totality theorems *)
+Fixpoint wf_nodeb (fuel : nat) (n : nat) (nd : node) : bool :=
+  match fuel with
+  | O => false
+  | S f => forallb (fun kv => Nat.ltb (snd kv) n) (n_opts nd) &&
+           forallb (fun kc => wf_nodeb f n (snd kc)) (n_cmds nd)
+  end.
+
+Definition wf_caseb (c : pcase) : bool :=
+  Nat.eqb (List.length (c_st0 c)) (List.length (c_specs c)) && wf_nodeb 64 (List.length (c_specs c)) (c_root c).
+
+(* every table of the tree in reverse order: one fixed permutation of every Go map *)
+Fixpoint rev_node (fuel : nat) (nd : node) : node :=
+  match fuel with
+  | O => nd
+  | S f => Node (n_info nd) (rev (n_opts nd)) (rev (List.map (fun kc => (fst kc, rev_node f (snd kc))) (n_cmds nd)))
+  end.
+
+Definition err_eqb (a b : err) : bool :=
+  ekind_eqb (e_kind a) (e_kind b) && strs_eqb (e_args a) (e_args b) && str_eqb (e_msg a) (e_msg b) &&
+  Bool.eqb (e_parsing a) (e_parsing b).
+
+Definition presult_eqb (a b : presult) : bool :=
+  strs_eqb (pr_warn a) (pr_warn b) &&
+  match pr_out a, pr_out b with
+  | Ok (s1, r1), Ok (s2, r2) => strs_eqb r1 r2 && list_eqb (state_eqb (mkMask true true true true true true true true)) (store s1) (store s2)
+  | Err e1, Err e2 => err_eqb e1 e2
+  | _, _ => false
+  end.
+
+Definition perm_ok (c : pcase) : bool :=
+  presult_eqb (run_case c)
+    (parse (pf_of (c_ftab c)) (c_md c) (c_lower c) true (c_specs c) (rev_node 64 (c_root c)) (c_st0 c) (c_args c)).
+
 Definition check_case (m : mask) (c : pcase) : bool :=
   let r := run_case c in
+  wf_caseb c && (negb (m_perm m) || perm_ok c) &&
   (negb (m_warn m) || str_eqb (concat (pr_warn r)) (c_warn c)) &&
   match pr_out r, c_err c with
   | Err e, Some (msg, parsing, k, args) =>
